@@ -18,7 +18,7 @@ R_, HASANTA, CHANDRA, ZWJ, ZWNJ, LENGTH_MARK, OU = "র", "্", "ঁ", "‍", "
 PAIRS = {s: chr(ord(s) - 0x38) for s in classes.SIGNS10}          # Unicode's own sign ↔ independent vowel pairing …
 PAIRS.update({"\u09c4": "\u09e0", "\u09e2": "\u098c", "\u09e3": "\u09e1"})      # … the Sanskrit signs are paired out of line: ৄ ↔ ৠ, ৢ ↔ ঌ, ৣ ↔ ৡ
 TABLE = dict(PAIRS)      # rows demanded: narrowed in run() to the signs the vowel-sign predicate accepts (at least the ten); rows allowed: every pair
-CORE_MARKS = set(".,;:?!()[]{}/-\"")
+CORE_MARKS = set(".,;:?!()[]{}/-\"'\u0964\u0965")
 
 
 def t_and(*xs):
@@ -378,12 +378,15 @@ def run(ctx):
         r1.ok("all-paths", "%d paths (old vowel-sign order not taken) agree with the rule list" % n_paths)
     # punctuation literal
     for lit in sorted(marks_lits):
-        bad = [c for c in lit if c.isalnum() or ord(c) > 0x7f or c.isspace()]
+        import unicodedata as _ud
+        # punctuation and symbols only (ASCII, the Dari marks, currency signs …): a letter, digit, sign, joiner or space in the set would turn a
+        # vowel sign typed after it into an independent vowel
+        bad = [c for c in lit if c.isalnum() or c.isspace() or not (_ud.category(c)[0] in "PS") or c in "\u200c\u200d"]
         miss = [c for c in CORE_MARKS if c not in lit]
         if bad or miss:
             r1.violation("marks", "the punctuation set %r %s" % (lit, ("contains %r" % bad) if bad else ("lacks %r" % "".join(miss))), common.fn_line(prog, kv))
         else:
-            r1.ok("marks", "punctuation set: %d ASCII punctuation characters" % len(set(lit)))
+            r1.ok("marks", "punctuation set: %d punctuation characters (ASCII, apostrophe and the Dari marks included)" % len(set(lit)))
     if not marks_lits:
         r1.violation("marks", "no punctuation-set test found in the automatic-vowel rule", common.fn_line(prog, kv))
     r1.floor(2, "all-paths + marks")
